@@ -45,6 +45,7 @@ type OpOptions struct {
 	NodeRoot      bool // node(id:) at the root with fragments
 	NodeRootPlain bool // wild: node(id:) { id }
 	AliasHelpers  bool // wild: alias id/__typename
+	EntityIDArgs  bool // String/ID argument values are sometimes the id of an existing entity (what an id-hint function recognises)
 }
 
 func SafeOps() OpOptions {
@@ -160,6 +161,13 @@ func (g *opGen) literal(t *ast.Type) (lit string, val interface{}) {
 		b := g.r.Bool()
 		return fmt.Sprint(b), b
 	case "String", "ID":
+		if g.o.EntityIDArgs && g.data != nil && g.r.Chance(1, 2) {
+			if ids := g.data.AllEntityIDs(); len(ids) > 0 {
+				s := hx.Pick(g.r, ids)
+				g.features["entity-id-argument"] = true
+				return fmt.Sprintf("%q", s), s
+			}
+		}
 		s := fmt.Sprintf("x%d", g.r.Intn(10))
 		return fmt.Sprintf("%q", s), s
 	}
